@@ -8,11 +8,17 @@ import ecc_file_x as fx
 import ecc_scen as es
 import ecc_util as eu
 
-LEAN_MODULES = ["Pff.Props.C01", "Pff.Props.C02"]
+LEAN_MODULES = ["Pff.Props.C01", "Pff.Props.C02", "Pff.Props.RunC", "Pff.Props.Bridge"]
 PROP_MODULE = "Pff.Props.C01"
-THEOREMS = ["Pff.Ecc.C01_whole_file_partial", "Pff.Ecc.C01_header_file_partial", "Pff.Ecc.C01_exit"]
+THEOREMS = ["Pff.Ecc.C01_whole_file_partial", "Pff.Ecc.C01_header_file_partial", "Pff.Ecc.C01_exit",
+            "Pff.Run.C01_run_within_capacity",
+            "Pff.Bridge.C01_block_premise_A",
+            "Pff.Bridge.C01_block_premise_B",
+            "Pff.Bridge.C01_block_premise_A_erasures",
+            "Pff.Bridge.C01_block_premise_B_erasures"]
 MODELLED = [("pyFileFixity/header_ecc.py", "main"), ("pyFileFixity/structural_adaptive_ecc.py", "main"),
             ("pyFileFixity/lib/eccman.py", "ECCMan.decode")]
+MODELLED = sorted(set(MODELLED + fx.WHOLE_RUN_MODELLED))
 TRUSTED_BASE = [
     "Lean 4.33.0 kernel; axioms per theorem under coverage.theorems (subset of propext, Classical.choice, Quot.sound)",
     "PROVED PART (…_partial): if every assembled block is intact-and-accepted or detected-and-decoded to the original block with verifying "
@@ -33,7 +39,7 @@ RULE = ("trees of 1-3 files over the C03 size/name grid; per protected block a r
 
 def run(oc, tier, seed, model_available, escalate):
     rng = random.Random(seed * 2147483629 + 1)
-    n = 14 if tier == "quick" else 600
+    n = 60 if tier == "quick" else 2000
     if escalate:
         n *= 2
     d = os.path.join(common.scratch(), "c01")
@@ -123,6 +129,11 @@ def run(oc, tier, seed, model_available, escalate):
         if it % max(1, n // 4) == 0:
             oc.sample({"params": P.describe(), "tree": {k: len(v) for k, v in tree.items()}, "damaged_files": sorted(damaged), "exit": rc, "stats": st})
     oc.extra["damage_totals"] = tot
+    # ---- whole-run correspondence: complete `-c` runs replayed into the Lean model of the correction loop (Pff.Run.run)
+    os.makedirs(d, exist_ok=True)
+    wl, wi = fx.whole_run_cases(rng, (30 if tier == "quick" else 200) * (2 if escalate else 1), ["within", "within", "heavy", "clean"], d, oc)
+    lines += wl
+    impl += wi
     shutil.rmtree(d, ignore_errors=True)
     if model_available:
         model, err = common.run_driver(lines)
